@@ -1868,6 +1868,7 @@ class UserSpaceImpl(*_user_space_impl_base):
         selfdict = getattr(self, attr)
         basedict = CustomChainMap(*[getattr(b, attr) for b in bases])
         selfkeys = list(selfdict)
+        reinherited = False
 
         for name in basedict: # ChainMap iterates from the last map
 
@@ -1903,12 +1904,19 @@ class UserSpaceImpl(*_user_space_impl_base):
 
             if selfdict[name].is_derived():
                 selfdict[name].on_inherit(updater, bs)
+                reinherited = True
 
         for name in selfkeys:
             if selfdict[name].is_derived():
                 attrs[attr](name)
             else:   # defined
                 selfdict[name] = selfdict.pop(name)
+
+        if reinherited:
+            # A derived member that is there already is updated in place:
+            # the dynamic spaces built from this space still hold it
+            # as it was
+            self.clear_subs_rootitems()
 
     def on_del_cells(self, name):
         cells = self.cells[name]
